@@ -1,0 +1,27 @@
+use super::{
+    Identifier,
+    IdentifierRef,
+};
+use crate::registry::Registry;
+
+impl<R> Identifier<R>
+where
+    R: Registry,
+{
+    pub(crate) fn verif_addr(&self) -> usize {
+        self.pointer as usize
+    }
+
+    pub(crate) fn verif_capacity(&self) -> usize {
+        self.capacity
+    }
+}
+
+impl<R> IdentifierRef<R>
+where
+    R: Registry,
+{
+    pub(crate) fn verif_addr(self) -> usize {
+        self.pointer as usize
+    }
+}
